@@ -157,6 +157,19 @@ def _path_epilogue(prog, cfg):
         p2, _ = yastn.get_contraction_path(*args)
         out.append(("P", tuple(map(tuple, p1)), tuple(map(tuple, p2))))
         out.append(raw(yastn.contract_with_unroll(*args, optimize=p2)))
+        # one SlicedLeg object whose window is moved in place between calls: at each call the result must only depend on the
+        # content of the argument at that moment (fresh object vs moved object bit-identical)
+        leg = a.get_legs(0)
+        t0, D0 = leg.t[0], leg.D[0]
+        if D0 >= 2:
+            moved = yastn.SlicedLeg(t=(t0,), D=(1,), slices={t0: slice(0, 1)})
+            for lo in range(D0):
+                moved.slices[t0] = slice(lo, lo + 1)
+                fresh = yastn.SlicedLeg(t=(t0,), D=(1,), slices={t0: slice(lo, lo + 1)})
+                r1 = yastn.contract_with_unroll(*args, optimize=p2, unroll={labs[0]: [moved]})
+                r2 = yastn.contract_with_unroll(*args, optimize=p2, unroll={labs[0]: [fresh]})
+                out.append(("W", raw(r1) == raw(r2)))
+                out.append(raw(r1))
     return out
 
 
@@ -259,6 +272,11 @@ def twin_case(ctx, idx):
         finally:
             b.cm.injector = None
         ctx.count("injected_perturbations", count[0])
+        for k, x in enumerate(ref):
+            if x[0] == "W" and not x[1]:
+                ctx.violation("argument-state-dependence:moved-SlicedLeg",
+                              "contract_with_unroll gave different results for a SlicedLeg moved in place and a fresh SlicedLeg of equal content")
+                break
         for name, res in histories.items():
             ctx.count("histories_compared")
             if len(res) != len(ref):
